@@ -36,7 +36,7 @@ impl AmountDeltaU64 {
     ensures r.0 <= r.1, r.0 as int == min_i(sqrt_price_0 as int, sqrt_price_1 as int), r.1 as int == max_i(sqrt_price_0 as int, sqrt_price_1 as int),
 //@ end
 
-//@ fn math/token_math.rs get_amount_delta_a -> r
+//@ fn math/token_math.rs get_amount_delta_a -> r canary
     requires sqrt_price_0 > 0, sqrt_price_1 > 0,
     ensures
         r matches Ok(v) ==> v as int == delta_a(sqrt_price_0 as int, sqrt_price_1 as int, liquidity as int, round_up),
@@ -60,7 +60,7 @@ impl AmountDeltaU64 {
     }
 //@ end
 
-//@ fn math/token_math.rs get_amount_delta_b -> r
+//@ fn math/token_math.rs get_amount_delta_b -> r canary
     ensures
         r matches Ok(v) ==> v as int == delta_b(sqrt_price_0 as int, sqrt_price_1 as int, liquidity as int, round_up),
         r is Err <==> (liquidity as int * abs_diff(sqrt_price_0 as int, sqrt_price_1 as int) > U128MAX()
@@ -88,7 +88,7 @@ pub proof fn lemma_delta_b_big(l: int, d: int, up: bool)
 }
 
 
-//@ fn math/token_math.rs get_next_sqrt_price_from_a_round_up -> r
+//@ fn math/token_math.rs get_next_sqrt_price_from_a_round_up -> r canary
     requires sqrt_price > 0,
     ensures
         r matches Ok(v) ==> v as int == next_from_a(sqrt_price as int, liquidity as int, amount as int, amount_specified_is_input)
@@ -106,7 +106,7 @@ pub proof fn lemma_delta_b_big(l: int, d: int, up: bool)
     }
 //@ end
 
-//@ fn math/token_math.rs get_next_sqrt_price_from_b_round_down -> r
+//@ fn math/token_math.rs get_next_sqrt_price_from_b_round_down -> r canary
     ensures
         r matches Ok(v) ==> liquidity != 0 && v as int == next_from_b(sqrt_price as int, liquidity as int, amount as int, amount_specified_is_input),
         liquidity == 0 ==> r is Err,
